@@ -273,6 +273,14 @@ class Client:
         self.world.stats["sync_points"] = self.world.stats.get("sync_points", 0) + 1
         self.world.sched.decide(self.idx, [self.idx, self.op["id"], self.k], in_lib=True)
 
+    def yield_now(self):
+        """a voluntary yield of the library (timed wait, sleep): others run
+        first if they can"""
+        self.k += 1
+        self.world.stats["yields"] = self.world.stats.get("yields", 0) + 1
+        self.world.sched.decide(self.idx, [self.idx, self.op["id"], self.k], in_lib=True,
+                                yielding=True)
+
     def wait_for(self, pred):
         w = self.world
         self.k += 1
